@@ -191,6 +191,8 @@ def impl_request(c):
            "version_comment": c.get("version_comment", False), "repeat": c.get("repeat", 1)}
     if c.get("reuse_opts") is not None:
         req["reuse_opts"] = c["reuse_opts"]
+    if c.get("history"):
+        req["history"] = True
     return req
 
 
